@@ -7,7 +7,7 @@ import (
 )
 
 func isNullKind(n *Node) bool {
-	return n == nil || n.K == "null" || n.K == "emptystmt" || n.K == "emptytag" || n.K == "nil"
+	return n == nil || n.K == "null" || n.K == "emptystmt" || n.K == "emptytag" || n.K == "nil" || n.K == "placeholder"
 }
 
 // nodeSig is a canonical text of a node such that two nodes with different
